@@ -104,7 +104,10 @@ CHECKS = {
         "RetryExhaustedError with stop_reason, attempts, last_class, exactly one of last_result/last_exception and next_sleep_s "
         "describing that attempt) for all configurations/environments of the Gallina model; tracebacks are not modelled. "
         "attempt_timeout_s is exercised by the correspondence (transparent wrapper; an attempt that hangs is an exception failure "
-        "after exactly the timeout; async runs on a real asyncio loop over virtual time).",
+        "after exactly the timeout; async runs on a real asyncio loop over virtual time; the sync wrapper _call_with_timeout is "
+        "pinned by digest). Exception and result objects may be falsy, shared between attempts, chained, or one-member exception "
+        "groups; fix commit 79c3974 repaired the sync wrapper returning None for a falsy exception "
+        "(findings/witness/C04-falsy-exception.json).",
         RUNNER_NOTE, "DESIGN.md §4 C04",
     ),
     "C05": (
@@ -202,7 +205,8 @@ CHECKS = {
         "Theorems C19_* (marker types win over codes, codes over names, strict ignores names; status table and http table for every "
         "integer; first-int attribute order of http_classifier; SQLSTATE table, attribute before args, fallbacks; optional-library "
         "classifier = default_classifier when the library is absent; an int sqlstate beyond CPython's int-to-str digit limit yields "
-        "UNKNOWN) for the Gallina model Classify.v over pyval. Totality is by "
+        "UNKNOWN; an `args` attribute of the exception's own type that cannot be iterated carries no arguments - fix commit 6ee7e8d, "
+        "findings/witness/C19-args-attribute.json) for the Gallina model Classify.v over pyval. Totality is by "
         "construction in the model (total functions); that the code does not raise on this value universe is checked by the "
         "correspondence run. With-library behaviour of the optional classifiers is not claimed.",
         "Trusted: Coq kernel + vm_compute; pyir_classify.py and PyIRC.v (incl. the identification of the three name heuristics with "
@@ -257,7 +261,8 @@ def main():
             "observe it through scripted callbacks, spies and a virtual clock; REDRESS_VERIF=1 is exported but unused; "
             "source_commits lists the unguarded `fix:` commits (repairs of genuine defects, see known-findings.txt), not hooks",
             "baseline_off_cmd": "cd /repo && /venv/bin/python -m pytest -ra -q -p no:cacheprovider --timeout=900",
-            "source_commits": ["7959b97", "4805882", "e37d3df", "a10e77c", "7a1aae8", "844555a", "ca75464", "57ff40d", "f52464c", "a10a080"],
+            "source_commits": ["7959b97", "4805882", "e37d3df", "a10e77c", "7a1aae8", "844555a", "ca75464", "57ff40d", "f52464c", "a10a080",
+                               "6ee7e8d", "79c3974"],
             "add_only": True,
         },
         "engines": [
